@@ -85,6 +85,15 @@ def pins_obligations(ctx, eq, topo):
                 primary = xp is eq.x_points[0]
                 want = 1 if (primary or not nis_pos) else 2
                 ctx.oblige(TRUE(k == want), "T7:%s: X-point at the %s is pinned on its own separatrix (radial edge %d)" % (nm, which, want))
+    # T8: regions joined in y are gridded on the SAME radial psi values, segment by segment
+    same = lambda a, b: a is b or (getattr(a, "tag", 0) == getattr(b, "tag", 1) and getattr(a, "n", 0) == getattr(b, "n", 1))
+    for nm, reg in eq.regions.items():
+        for k in range(reg.nSegments):
+            up = reg.connections[k]["upper"]
+            if up is None:
+                continue
+            other = eq.regions[up[0]]
+            ctx.oblige(TRUE(same(reg.psi_vals[k], other.psi_vals[up[1]])), "T8:%s[%d] and its upper neighbour %s[%d] use the same radial segment (psi values)" % (nm, k, up[0], up[1]))
 
 
 def make_pins_run(topo):
